@@ -1,6 +1,7 @@
 package main
 
 import (
+	"os"
 	"fmt"
 	"go/token"
 	"go/types"
@@ -414,6 +415,24 @@ func (e *Enc) enterLoop(fr *Frame, li *loopInfo, ins []edgeIn) pathState {
 	e.allocMonotone(entrySt, st)
 	e.clockMonotone(entrySt, st)
 	e.countersMonotone(entrySt, st)
+	// 2a. map ranges over a map that the loop cannot mutate: every key produced so far was in
+	// the map when the range started
+	for _, ins := range li.head.Instrs {
+		nx, ok := ins.(*ssa.Next)
+		if !ok {
+			continue
+		}
+		it := fr.regs[nx.Iter].It
+		if it == nil || it.mapTyp == nil {
+			continue
+		}
+		if os.Getenv("GOCV_NOAUTOVIS") != "" || ms.Top || ms.Fams["M:"+typeStr(it.mapTyp)] {
+			continue
+		}
+		ks := e.sortOf(it.mapTyp.Key())
+		vis := e.get(st, e.comps[it.visited])
+		e.assumeIf(reach, fmt.Sprintf("(forall ((k %s)) (! (=> (select %s k) (select %s k)) :pattern ((select %s k))))", ks, vis, it.startDom, vis))
+	}
 	// 2b. loop frame: locations outside the function's modifies clause are unchanged so far
 	if e.framesOn() {
 		goals := e.frameGoals(st)
@@ -1217,7 +1236,11 @@ func (e *Enc) execBinOp(fr *Frame, x *ssa.BinOp, cur *pathState) {
 	case token.SUB:
 		t = "(- " + a.T + " " + b.T + ")"
 	case token.MUL:
-		t = "(* " + a.T + " " + b.T + ")"
+		if s == "Real" {
+			t = e.realMul(a.T, b.T)
+		} else {
+			t = "(* " + a.T + " " + b.T + ")"
+		}
 	case token.QUO:
 		if s == "Real" {
 			t = "(/ " + a.T + " " + b.T + ")"
@@ -1524,6 +1547,14 @@ func (e *Enc) execRange(fr *Frame, x *ssa.Range, cur *pathState) {
 	}
 	d, _, _ := e.mapComps(mt)
 	ks := e.sortOf(mt.Key())
+	if !isAtom(base.T) || true {
+		// name the ranged map by a constant (not a macro): it appears in quantifier patterns,
+		// which must not contain if-then-else
+		mc := e.fresh(fmt.Sprintf("rmap_f%d", fr.id))
+		e.declare(mc, "Ref")
+		e.assume(eq(mc, base.T))
+		base.T = mc
+	}
 	vis := e.comp(fmt.Sprintf("visited_f%d_%s", fr.id, x.Name()), "(Array "+ks+" Bool)", "local", "IT:"+x.Name())
 	vis.Zero = "((as const (Array " + ks + " Bool)) false)"
 	cur.st.v[vis.Name] = vis.Zero
